@@ -169,24 +169,35 @@ fn strs(v: &[&str]) -> Vec<Vec<u8>> {
 /// that case-folds to ASCII. All are ill-formed; a parser that trims or folds accepts them.
 pub fn sanitisation_slips(bases: &[&str]) -> Vec<Vec<u8>> {
     const PADS: &[&str] = &[" ", "\t", "\n", "\r\n", "\u{a0}", "\u{2003}", "\u{feff}", "\0", "\u{b}", "\u{c}", "-", "_", "\u{85}"];
-    const FOLD: &[(char, char)] = &[('k', '\u{212a}'), ('s', '\u{17f}'), ('i', '\u{130}'), ('a', '\u{ff41}'), ('e', '\u{435}'), ('n', '\u{ff4e}')];
+    const FOLD: &[(char, char)] = &[('k', '\u{212a}'), ('s', '\u{17f}'), ('i', '\u{130}'), ('i', '\u{131}'), ('a', '\u{ff41}'), ('e', '\u{435}'), ('n', '\u{ff4e}')];
+    // every slip is preceded by its well-formed base: list items are evaluated in order within a
+    // chunk of one worker thread, so a memo keyed by a folded / trimmed form of the text has just
+    // been filled by the base when the slip arrives (no sorting, no de-duplication here)
     let mut out = vec![];
+    let mut push = |b: &str, slip: String| {
+        out.push(b.as_bytes().to_vec());
+        out.push(slip.into_bytes());
+    };
     for b in bases {
         for p in PADS {
-            out.push(format!("{p}{b}").into_bytes());
-            out.push(format!("{b}{p}").into_bytes());
-            out.push(format!("{p}{b}{p}").into_bytes());
+            push(b, format!("{p}{b}"));
+            push(b, format!("{b}{p}"));
+            push(b, format!("{p}{b}{p}"));
         }
         for (from, to) in FOLD {
-            if let Some(pos) = b.to_ascii_lowercase().find(*from) {
+            let lower = b.to_ascii_lowercase();
+            let hits: Vec<usize> = lower.char_indices().filter(|(_, ch)| ch == from).map(|(i, _)| i).collect();
+            for pos in &hits {
                 let mut c: Vec<char> = b.chars().collect();
-                c[pos] = *to;
-                out.push(c.into_iter().collect::<String>().into_bytes());
+                c[*pos] = *to;
+                push(b, c.into_iter().collect::<String>());
+            }
+            if hits.len() > 1 {
+                let c: String = b.chars().map(|ch| if ch.to_ascii_lowercase() == *from { *to } else { ch }).collect();
+                push(b, c);
             }
         }
     }
-    out.sort();
-    out.dedup();
     out
 }
 
@@ -210,7 +221,7 @@ pub fn byte_substitutions(bases: &[&str]) -> Vec<Vec<u8>> {
     out
 }
 
-pub const SLIP_BASES_LANGID: &[&str] = &["en", "und", "en-US", "de_AT", "sr-Cyrl-RS", "ca-ES-valencia", "sl-1994", "es-419", "EN-latn-us", "abcde-Kana-001-1abc-nedis"];
+pub const SLIP_BASES_LANGID: &[&str] = &["en", "und", "en-US", "de_AT", "sr-Cyrl-RS", "ca-ES-valencia", "sl-1994", "es-419", "EN-latn-us", "abcde-Kana-001-1abc-nedis", "ko", "ko-KR", "sk-SK", "is-IS", "en-UK"];
 pub const SLIP_BASES_LOCALE: &[&str] = &["en-u-ca-buddhist", "en-US-t-es-ar-k0-kana", "und-x-priv", "de-u-attr-co-phonebk-t-h0-hybrid-x-a-b", "sk-Latn-SK-u-nu-latn", "en-t-k0-kana-u-ks-level1"];
 
 /// words with a meaning elsewhere (CLDR's root, POSIX locale names, grandfathered BCP 47 tags,
